@@ -233,8 +233,8 @@ Proof. exact world_err_unchanged. Qed.
 
 Theorem C02_history_continues_from_unchanged_world : forall vr accts s b st rest i,
   world_step vr s b st = Err ->
-  run_steps vr accts s b (st :: rest) i = (s, b, Some i) \/
-  run_steps vr accts s b (st :: rest) i = run_steps vr accts s b rest (i + 1).
+  run_steps vr accts s b (IStep st :: rest) i = (s, b, Some i) \/
+  run_steps vr accts s b (IStep st :: rest) i = run_steps vr accts s b rest (i + 1).
 Proof. exact run_steps_err_keeps. Qed.
 
 (* ---- hence over any history of calls of any kind (failed ones included), by anybody, the
@@ -579,3 +579,32 @@ Theorem C02_oe_metadata_mode_does_not_touch_payment : forall c c' vr s e fp wv o
 Proof. exact ostep_nft_mode_independent. Qed.
 
 Print Assumptions C02_oe_metadata_mode_does_not_touch_payment.
+
+(* =====================================================================================
+   Migrations inside histories.  `minter_migrate` / `o_minter_migrate` (model/MinterMigrate.v)
+   are the minters' `migrate` entry points as functions on the sale-world state; they are
+   not handler operations, so `step` / `ostep` and the theorems above are untouched.  The
+   sale-world correspondence runs migrations inside its histories (SaleCorr.IMigrate /
+   SaleOeCorr.OIMigrate), from stored versions around 3.9.0 and the current version, by the
+   wasm admin and by strangers.
+   ===================================================================================== *)
+From LP Require Import MinterMigrate MinterMigrateProofs MinterMigrateCorrProofs.
+
+(* a migration moves no funds and emits no message: `minter_migrate` returns a state only,
+   the payout configuration is untouched, and at world level the balances stay *)
+Theorem C02_migrate_keeps_payout_config : forall vr now name_ok stored admin s s',
+  minter_migrate vr now name_ok stored admin s = Ok s' ->
+  s_payment s' = s_payment s /\ s_admin s' = s_admin s /\ s_price s' = s_price s /\ s_denom s' = s_denom s.
+Proof. exact migrate_payout_config. Qed.
+
+Theorem C02_migrate_moves_no_funds : forall vr accts s b m i,
+  snd (fst (run_steps vr accts s b [IMigrate m] i)) = b.
+Proof. exact run_steps_migrate_bal. Qed.
+
+Theorem C02_oe_migrate_changes_nothing : forall vr now name_ok stored admin s s',
+  o_minter_migrate vr now name_ok stored admin s = Ok s' -> s' = s.
+Proof. exact o_migrate_id. Qed.
+
+Print Assumptions C02_migrate_keeps_payout_config.
+Print Assumptions C02_migrate_moves_no_funds.
+Print Assumptions C02_oe_migrate_changes_nothing.
